@@ -54,6 +54,21 @@ class SpecFail(BaseException):
 
 CUR = None  # the active Explorer (one per process)
 PARANOID = bool(__import__('os').environ.get('SYMX_PARANOID'))
+SITES = {} if __import__('os').environ.get('SYMX_SITES') else None      # debugging aid: count new decisions per source line
+
+
+def _note_site():
+    import sys as _s
+    f = _s._getframe(2)
+    chain = []
+    while f is not None and len(chain) < 3:
+        fn = f.f_code.co_filename
+        if '/symx/' not in fn:
+            chain.append('%s:%d' % (fn.split('/')[-1], f.f_lineno))
+        f = f.f_back
+    k = ' < '.join(chain)
+    SITES[k] = SITES.get(k, 0) + 1
+
 EQ_HOOK = None   # optional provenance-based equality (installed by symx.seq)
 
 
@@ -378,6 +393,28 @@ def trunc(e, w):
     if e.size() <= w:
         return e
     return z3.Extract(w - 1, 0, e) if CAP is not None else low(e, w)
+
+
+def memo(tag, items, fn):
+    """per-path memo for pure helpers over sequences of items (ints / SymInts): the same terms in, the same terms out.
+    Saves re-building identical z3 terms when the code under test repeats a conversion (b2h, upper, int) on the same data."""
+    ex = CUR
+    m = getattr(ex, "memo", None)
+    if m is None:
+        return fn()
+    key = (tag,) + tuple(it if isinstance(it, int) else ("s", it.e.get_id()) if isinstance(it, SymInt) else ("o", id(it)) for it in items)
+    hit = m.get(key)
+    if hit is not None:
+        if hit[1] == "exc":
+            raise hit[2](*hit[3])
+        return hit[2]
+    try:
+        r = fn()
+    except ValueError as e:
+        m[key] = (list(items), "exc", type(e), e.args)
+        raise
+    m[key] = (list(items), "ok", r)       # the items are kept alive so that z3 term ids cannot be recycled
+    return r
 
 
 def mk_int(e, lo, hi, inx=False):
@@ -1124,6 +1161,7 @@ class Explorer:
         self.decisions = []
         self.decided = {}
         self.div_cache = {}
+        self.memo = {}          # per-path memo of pure term-building helpers (see memo())
         self.pc = []
         self._model = None
         self._model_pc_len = 0
@@ -1176,6 +1214,16 @@ class Explorer:
                     r = z3.unsat
         self.stats.solver_s += time.time() - t
         self.stats.queries += 1
+        if SITES is not None and time.time() - t > 3:
+            import sys as _s
+            f = _s._getframe(1)
+            chain = []
+            while f is not None and len(chain) < 4:
+                fn = f.f_code.co_filename
+                if '/symx/' not in fn:
+                    chain.append('%s:%d' % (fn.split('/')[-1], f.f_lineno))
+                f = f.f_back
+            print('SLOW %.1fs %s fresh=%s extra=%s :: %s' % (time.time() - t, r, fresh, str(extra)[:200].replace(chr(10), ' '), ' < '.join(chain)), file=_s.stderr)
         return r
 
     @property
@@ -1260,6 +1308,8 @@ class Explorer:
             return val
         if i >= self.max_decisions:
             raise UnwindExceeded("more than %d decisions on one path" % self.max_decisions)
+        if SITES is not None:
+            _note_site()
         val = self._holds_in_model(e)
         if PARANOID:
             chk = z3.Solver()
